@@ -57,7 +57,8 @@ def one_history(args):
     dbdir = os.path.join(base, 'db%d' % idx)
     t0 = time.time()
     rc, out, err = k2lib.run_c(k2, dbdir, cfg, ops)
-    import shutil; shutil.rmtree(dbdir, ignore_errors=True)
+    import shutil, glob; shutil.rmtree(dbdir, ignore_errors=True)
+    for d in glob.glob(dbdir + '.*'): shutil.rmtree(d, ignore_errors=True)      # backups / copies / lost+found of this history
     calls = k2lib.parse_trace(out)
     res = k2lib.K2Result()
     if rc != 0:
@@ -70,7 +71,7 @@ def run_k2(rep, prop, tier, seed, profile, nhist, nops, fixed=None, extra_histor
     k2 = vlib.build_k2(out, 'nothread')
     model = vlib.ensure_model()
     rng = vlib.Rng(seed ^ 0xC0FFEE)
-    jobs = [(k2, model, out, 1000 + i, 0, h, nops, fixed) for i, h in enumerate(extra_histories)]   # corpus first
+    jobs = [(k2, model, out, 1000000 + i, 0, h, nops, fixed) for i, h in enumerate(extra_histories)]   # corpus first (indices disjoint from the random histories')
     jobs += [(k2, model, out, i, rng.next(), profile, nops, fixed) for i in range(nhist)]
     with ProcessPoolExecutor(vlib.NCPU) as ex:
         results = list(ex.map(one_history, jobs, chunksize=1))
